@@ -335,7 +335,7 @@ func runRegCase(ci interface{}, rec *pbt.Rec) *pbt.Failure {
 				}
 			}
 			if !found {
-				return pbt.Failf("orchestrator-vote-misattributed", "%s: claim sent by orchestrator %s (registered by validator %d) is not recorded as that validator's vote: %v", ch, o, owner, r)
+				return pbt.Failf("orchestrator-vote-misattributed", "%s: claim sent by orchestrator %s (registered by validator %d) is not recorded as that validator's vote (recorded voters: %v)", ch, o, owner, votersOf(r))
 			}
 		}
 		if f := invariants(); f != nil {
@@ -365,4 +365,11 @@ func TestC17(t *testing.T) {
 		Run:         runRegCase,
 		Assumptions: []string{"'own account' is GetSigners() of MsgDelegateKeys (the validator's account); signature verification of the transaction itself is the ante handler's job and not exercised", "a refused registration is a violation only when both the external key and the orchestrator account were never used on that chain"},
 	}).Main(t)
+}
+
+func votersOf(r *mtypes.ExternalEventVoteRecord) []string {
+	if r == nil {
+		return nil
+	}
+	return r.Votes
 }
